@@ -293,6 +293,37 @@ func (w c17Work) run(api *impl.API, clk *c17Clock) (digest string, start, end in
 				out, err, _ := readAllSizes(rd, gen.ReadSizes(gen.New(w.seed+uint64(k)), "random"), 8<<20)
 				note("bad", out, err)
 			}
+		case "token-cap":
+			// fresh Writers whose pending-token count is 32765 or 32766 when the
+			// match finder is entered again (it then takes its portable fallback
+			// although the assembly is selected): a zero run of K bytes in front of
+			// incompressible data, K swept across the values at which that happens
+			// for the setting (found by counting calls of that branch)
+			type tc struct {
+				s      Setting
+				centre int
+			}
+			v := []tc{{Setting{Wrapper: "flate", Level: 1, Win4K: true}, 3880}, {Setting{Wrapper: "flate", Level: 2, Win4K: true}, 4120},
+				{Setting{Wrapper: "flate", Level: 1}, 268}, {Setting{Wrapper: "flate", Level: 2}, 282}, {Setting{Wrapper: "flate", Level: -1}, 282}}[r.Intn(5)]
+			total := 70000
+			if v.s.Win4K {
+				total = 40000
+			}
+			d := make([]byte, total)
+			for K := v.centre - 7; K <= v.centre+7; K++ {
+				for j := 0; j < K; j++ {
+					d[j] = 0
+				}
+				r.Fill(d[K:])
+				sink := &Sink{Hook: hook}
+				wr, err := NewWriter(api, v.s, sink)
+				if err != nil {
+					note("ctor", nil, err)
+					return
+				}
+				wr.Write(d)
+				note("tc", sink.Buf.Bytes(), wr.Close())
+			}
 		case "zlib-dict":
 			// many short streams against one preset dictionary per workload; the
 			// dictionaries of different workloads have the same length (param) and
@@ -393,7 +424,7 @@ func (h *hookWriter) Write(p []byte) (int, error) { h.hook(); return h.w.Write(p
 var c17First = true
 
 var c17Kinds = []string{"compress", "compress-reset", "decode-fixed", "decode-dynamic", "decode-any", "decode-malformed", "gzip-roundtrip", "zlib-roundtrip",
-	"compress-deep-tree", "compress-deep-tree", "decode-close-reuse", "decode-close-reuse", "gzip-close-reuse", "gzip-headers", "gzip-headers", "zlib-dict"}
+	"compress-deep-tree", "compress-deep-tree", "decode-close-reuse", "decode-close-reuse", "gzip-close-reuse", "gzip-headers", "gzip-headers", "zlib-dict", "token-cap"}
 
 // c17Distinct is c17Kinds without repetitions.
 var c17Distinct = func() (d []string) {
@@ -409,7 +440,7 @@ var c17Distinct = func() (d []string) {
 
 // kinds used for homogeneous cases (every workload of the case is of one kind,
 // so that all goroutines contend on the same code paths and shared state)
-var c17Homog = []string{"zlib-dict", "decode-dynamic", "compress", "gzip-roundtrip", "zlib-dict", "decode-fixed", "compress-deep-tree", "decode-malformed"}
+var c17Homog = []string{"zlib-dict", "decode-dynamic", "compress", "token-cap", "zlib-dict", "decode-fixed", "compress-deep-tree", "decode-malformed", "token-cap", "gzip-roundtrip"}
 
 func (c17) Run(c *mon.Ctx, i int) {
 	r := c.R
